@@ -463,6 +463,21 @@ async fn on_commitment_revocation(
     let proxy = plugin.state().lock().unwrap().proxy.clone();
 
     for (tower_id, net_addr, status) in towers {
+        // The same revocation may be notified more than once. If the tower has already answered for this appointment
+        // (accepted or rejected it) there is nothing left to do.
+        {
+            let state = plugin.state().lock().unwrap();
+            if state.get_appointment_receipt(tower_id, locator).is_some()
+                || state
+                    .towers
+                    .get(&tower_id)
+                    .map_or(true, |t| t.invalid_appointments.contains(&locator))
+            {
+                log::debug!("{tower_id} has already answered for {locator}. Skipping");
+                continue;
+            }
+        }
+
         if status.is_reachable() {
             match http::add_appointment(tower_id, &net_addr, &proxy, &appointment, &signature).await
             {
